@@ -40,9 +40,20 @@ fn pick_paths(rng: &mut Rng, n: usize) -> Vec<String> {
         .collect()
 }
 
-fn gen_project(rng: &mut Rng, fenced: &BTreeSet<String>, n: usize) -> (Vec<SrcFile>, Vec<SrcFile>) {
-    let paths = pick_paths(rng, n);
+fn gen_project(rng: &mut Rng, fenced: &BTreeSet<String>, n: usize) -> (Vec<SrcFile>, Vec<SrcFile>, Vec<Option<String>>) {
+    let mut paths = pick_paths(rng, n);
+    // sometimes two files share a base name in different directories
+    if n >= 2 && rng.chance(1, 4) {
+        let i = rng.below(n as u64) as usize;
+        let j = (i + 1 + rng.below(n as u64 - 1) as usize) % n;
+        let base = std::path::Path::new(&paths[i]).file_name().unwrap().to_string_lossy().into_owned();
+        let dir_i = std::path::Path::new(&paths[i]).parent().map(|p| p.to_string_lossy().into_owned()).unwrap_or_default();
+        let other_dirs: Vec<&&str> = DIRS.iter().filter(|d| **d != dir_i).collect();
+        let d = **rng.pick(&other_dirs);
+        paths[j] = if d.is_empty() { base } else { format!("{d}/{base}") };
+    }
     let mut files = vec![];
+    let mut xfaults: Vec<Option<String>> = vec![];
     {
         let mut g = Gen::new(rng, fenced, "");
         for (i, p) in paths.iter().enumerate() {
@@ -58,6 +69,8 @@ fn gen_project(rng: &mut Rng, fenced: &BTreeSet<String>, n: usize) -> (Vec<SrcFi
                 g.out.push_str(&l);
             }
             files.push(SrcFile { path: p.clone(), text: g.out.clone() });
+            let xf = g.cross_fault_line(&prefix);
+            xfaults.push(xf);
         }
     }
     let mut bystanders = vec![];
@@ -66,7 +79,7 @@ fn gen_project(rng: &mut Rng, fenced: &BTreeSet<String>, n: usize) -> (Vec<SrcFi
             bystanders.push(SrcFile { path: p.to_string(), text: t.to_string() });
         }
     }
-    (files, bystanders)
+    (files, bystanders, xfaults)
 }
 
 fn fault_line(rng: &mut Rng, tag: &str, fenced: &BTreeSet<String>) -> (String, &'static str) {
@@ -126,7 +139,7 @@ fn benign_plan(rng: &mut Rng, counters: &BTreeMap<String, u32>) -> Vec<PlanItem>
 }
 
 /// one fault inside the step, placed with the profile of the last fault-free step
-pub fn random_fault(rng: &mut Rng, counters: &BTreeMap<String, u32>, calls: u64, log: &[String]) -> (Vec<PlanItem>, Option<u64>, Option<i64>) {
+pub fn random_fault(rng: &mut Rng, counters: &BTreeMap<String, u32>, calls: u64, log: &[String], log_seq: &[u64]) -> (Vec<PlanItem>, Option<u64>, Option<i64>) {
     let cnt = |k: &str| counters.get(k).cloned().unwrap_or(0);
     let e = |x: i32| x as i64;
     // write side is where in-flight state is: half of all faults land there
@@ -165,7 +178,7 @@ pub fn random_fault(rng: &mut Rng, counters: &BTreeMap<String, u32>, calls: u64,
                     .iter()
                     .enumerate()
                     .filter(|(_, l)| l.contains("$ROOT") || l.starts_with("write ") || l.starts_with("close "))
-                    .map(|(i, _)| i as u64 + 1)
+                    .map(|(i, _)| log_seq.get(i).cloned().unwrap_or(i as u64 + 1))
                     .collect();
                 let at = if !tree_calls.is_empty() && rng.chance(4, 5) {
                     let tail = &tree_calls[tree_calls.len() / 2..];
@@ -294,7 +307,7 @@ pub fn gen_and_run(seed: u64, index: u64, scratch: &str, cfg: &GenCfg, fenced: &
         8 => 4,
         _ => 5,
     };
-    let (files, bystanders) = gen_project(&mut rng, fenced, nfiles);
+    let (files, bystanders, xfaults) = gen_project(&mut rng, fenced, nfiles);
     let mut layout = Layout::default();
     match rng.below(10) {
         0 | 1 => layout.src = Some(rng.pick(&["custom_src", "source code", "."]).to_string()),
@@ -376,7 +389,7 @@ pub fn gen_and_run(seed: u64, index: u64, scratch: &str, cfg: &GenCfg, fenced: &
     for _ in 0..rounds {
         // ---- maybe a faulted run followed by a clean one
         if cfg.faults && !h.last_counters.is_empty() && rng.chance(3, 5) {
-            let (plan, crash_at, disk_budget) = random_fault(&mut rng, &h.last_counters, h.last_calls, &h.last_log);
+            let (plan, crash_at, disk_budget) = random_fault(&mut rng, &h.last_counters, h.last_calls, &h.last_log, &h.last_log_seq);
             let mut plan = plan;
             plan.extend(benign_plan(&mut rng, &h.last_counters));
             push(&mut sc, &mut h, Op::Transpile { hash_seed: rng.next(), readdir_seed: rng.next() | 1, plan, crash_at, disk_budget, cli: false });
@@ -396,7 +409,16 @@ pub fn gen_and_run(seed: u64, index: u64, scratch: &str, cfg: &GenCfg, fenced: &
                 if cur_files.is_empty() {
                     continue;
                 }
-                let (line, kind) = fault_line(&mut rng, &tag, fenced);
+                let (mut line, mut kind) = fault_line(&mut rng, &tag, fenced);
+                // a type fault that exists only because of a definition in another file
+                if k < xfaults.len() && cur_files[k].path == files.get(k).map(|f| f.path.clone()).unwrap_or_default() {
+                    if let Some(x) = &xfaults[k] {
+                        if rng.chance(1, 2) {
+                            line = x.clone();
+                            kind = "crossfile_type";
+                        }
+                    }
+                }
                 let mut fv = cur_files.clone();
                 fv[k].text = format!("{}{}", fv[k].text, line);
                 faulty = Some(Faulty { path: fv[k].path.clone(), line: line.clone() });
@@ -505,7 +527,7 @@ pub fn gen_and_run(seed: u64, index: u64, scratch: &str, cfg: &GenCfg, fenced: &
 pub fn enumerate_faults(seed: u64, index: u64, scratch: &str, fenced: &BTreeSet<String>, stride: usize) -> Vec<C13Scenario> {
     let mut rng = Rng::new(seed ^ 0xE17).fork(index);
     let nfiles = rng.range(1, 3) as usize;
-    let (files, bystanders) = gen_project(&mut rng, fenced, nfiles);
+    let (files, bystanders, _) = gen_project(&mut rng, fenced, nfiles);
     let base = C13Scenario {
         property: "C13".into(),
         seed,
@@ -535,6 +557,7 @@ pub fn enumerate_faults(seed: u64, index: u64, scratch: &str, fenced: &BTreeSet<
     }
     let counters = h.last_counters.clone();
     let log = h.last_log.clone();
+    let log_seq = h.last_log_seq.clone();
     let mut out = vec![];
     let mut add = |plan: Vec<PlanItem>, crash_at: Option<u64>, disk: Option<i64>, out: &mut Vec<C13Scenario>| {
         let mut s = pre.clone();
@@ -572,7 +595,7 @@ pub fn enumerate_faults(seed: u64, index: u64, scratch: &str, fenced: &BTreeSet<
     for (i, l) in log.iter().enumerate() {
         let tree = l.contains("$ROOT") || l.starts_with("write ") || l.starts_with("close ");
         if tree || i % (stride.max(1) * 8) == 0 {
-            add(vec![], Some(i as u64 + 1), None, &mut out);
+            add(vec![], Some(log_seq.get(i).cloned().unwrap_or(i as u64 + 1)), None, &mut out);
         }
     }
     // disk budgets: every byte boundary would be too many; all multiples of a stride and the ends
@@ -939,6 +962,9 @@ pub fn run_check(tier_name: &str, seed: u64, verif_dir: &str) -> i32 {
             "overwrote_longer_file": stats.overwrote_longer,
             "deleted_in_target_tolerated": stats.deleted_in_target_tolerated,
             "single_faulty_file_rejections_checked": stats.single_faulty_rejected,
+            "single_faulty_by_kind": stats.faulty_kinds_checked,
+            "single_faulty_with_same_base_name_elsewhere": stats.same_base_name_checks,
+            "faulty_edit_on_already_invalid_project_skipped": stats.fault_not_faulty,
             "relation_checks": stats.relation_checks,
             "relation_skipped": stats.relation_skipped,
             "cli_runs": stats.cli_runs, "cli_skipped": stats.cli_skipped,
